@@ -19,6 +19,10 @@ def funcs : List (String × String) := [
   ("internal/dmarc/verifier.go:type verifyData", "af02233da37756e2"),
   ("internal/msgpipeline/check_runner.go:checkRunner.applyResults", "7aa5b1a3a230ef0d"),
   ("internal/msgpipeline/check_runner.go:checkRunner.checkBody", "772d1186a2a91890"),
+  ("internal/msgpipeline/check_runner.go:checkRunner.checkRcpt", "1b3553cdc4125320"),
+  ("internal/msgpipeline/check_runner.go:checkRunner.checkRcptOnce", "c87723fd85520250"),
+  ("internal/msgpipeline/check_runner.go:checkRunner.checkStates", "89a836a19d422e06"),
+  ("internal/msgpipeline/check_runner.go:checkRunner.runAndMergeResults", "3f1b9e96eeb78dc5"),
   ("internal/msgpipeline/msgpipeline.go:msgpipelineDelivery.Body", "7dc627c0fe03620b"),
   ("internal/msgpipeline/msgpipeline.go:msgpipelineDelivery.BodyNonAtomic", "7b9e7db40807d5d7")
 ]
